@@ -200,7 +200,7 @@ def resolver_arms(ctx, rid):
         syms = arm_syms(arm["pat"])
         syms[ty_id] = "TY"
         t = N.term(arm["body"], syms)
-        exp = "TypeGenerator::type_path_maybe_with_substitutes(P0,TY.path,Iterator::collect(Iterator::filter_map(TY.type_params,|1|{Option::map(C1_0.ty,|1|{%s})}))?)" % RECNQ("C2_0.id")
+        exp = "TypeGenerator::type_path_maybe_with_substitutes(P0,TY.path,Iterator::collect(Iterator::filter_map(TY.type_params,|1|{Some(%s)}))?)" % RECNQ("C1_0.ty?.id")
         expect_term(ctx, rid, "resolver/%s.path" % v, arm, t, exp, "struct/enum reference: own path + non-skipped type params resolved in order (order-preserving filter_map)")
     # result wrapping
     body_t = N.term(fn["body"], {ty_id: "TY"})
